@@ -108,6 +108,12 @@ CHECKS = [
               "arrays of the traced shapes does, never a concretization/tracer-conversion error, trace the body once, and the eager verdict must not "
               "depend on element values (incl. weakly typed scalars) or on earlier calls.",
          note="CPU, float32, jax 0.6.2; batch sizes 1..3; the reference solver of C02 cross-checks the eager verdict"),
+    dict(property_id="C12", level="fault_enumeration", design_ref="DESIGN.md §5 C12",
+         technique="complete enumeration of (operation, k-th call-out into user code, exception class) over an instrumented catalogue + Hypothesis histories of public-API operations; oracle = fixed probe set whose verdicts must equal those of a fresh interpreter (also from a second thread)",
+         text="Every call-out jaxtyping makes into harness-owned user code during 17 catalogue operations is failed once with each of four exception classes "
+              "(Exception and BaseException subclasses); after each run and after generated fault-free histories, 14 probes detect any leaked flatten-mode flag, "
+              "leaf label, open context, mutated annotation, changed switch or left-over import hook.",
+         note="faults only at call-outs the harness owns; the make_transparent finding is listed in known_findings.json and excluded from generated histories (counted)"),
 ]
 _pending = "check not built yet in this round (will be claimed once its machinery is committed)"
 NOT_APPLICABLE = [dict(property_id=f"C{i:02d}", reason=_pending) for i in range(1, 21)
